@@ -31,7 +31,12 @@ SPIES = ("spyNP", "spySX", "spyMX")
 OPS = ([("use_name", "numpy"), ("use_name", "casadi"), ("use_name", "bogus"), ("use_obj",)]
        + [("use_spy", s) for s in SPIES] + [("get",), ("step", None)] + [("step", s) for s in SPIES]
        # a step that is bound to fail (the sampling time is missing): the selection must survive the exception
-       + [("stepfail", None), ("stepfail", "spyNP"), ("stepfail", "spyMX")])
+       + [("stepfail", None), ("stepfail", "spyNP"), ("stepfail", "spyMX")]
+       # an explicit engine together with PARTIAL initial conditions (only the densities of the first link are given)
+       + [("step_partial", "spyNP"), ("step_partial", "spySX")]
+       # selecting a fresh, default-configured instance of the real NumPy engine (equal in configuration to the one
+       # use("numpy") creates, but another object)
+       + [("use_fresh_numpy",)])
 
 KIND_TYPES = {"numpy": (np.ndarray, np.floating, float), "SX": (cs.SX,), "MX": (cs.MX,)}
 
@@ -139,6 +144,41 @@ def run_history(spec: NetSpec, hist, st: Stats):
             elif k == "get":
                 if engines.get_current_engine() is not current or sym_metanet.engine is not current:
                     bad("get/wrong", f"get_current_engine() is {engines.get_current_engine()!r}, model says {current!r}")
+            elif k == "use_fresh_numpy":
+                inst = env.numpy_engine()
+                r = engines.use(inst)
+                if r is not inst:
+                    bad("use/instance-not-returned", f"returned {r!r}")
+                if engines.get_current_engine() is not inst or sym_metanet.engine is not inst:
+                    bad("use/not-current", "the freshly created NumPy engine instance is not the current engine")
+                current = engines.get_current_engine()
+            elif k == "step_partial":
+                explicit = spies[op[1]]
+                L0 = built.obj["L0"]
+                N = spec.links[0].N
+                given = (np.array([20.0 + i for i in range(N)]) if op[1] == "spyNP" else cs.SX.sym("rho_given", N, 1))
+                st.inc("executions")
+                try:
+                    built.net.step(engine=explicit, init_conditions={L0: {"rho": given}}, **P)
+                except Exception as e:  # noqa: BLE001
+                    bad(f"step/exception/{exc_site(e)}/{type(e).__name__}", f"partial initial conditions: {exc_text(e)}")
+                    return problems
+                for name, s in spies.items():
+                    if s is not explicit and s.total() != 0:
+                        bad(f"step/foreign-engine-called/{'selected' if s is current else 'unrelated'}/{sorted(s.calls)[0]}",
+                            f"{name} received calls {dict(s.calls)} although the step must use {explicit!r}")
+                ref = reference_calls(spec, explicit.label)
+                want_var = ref.get("var", 0) - 1  # one variable was supplied by the caller
+                if explicit.calls.get("var", 0) != want_var or any(explicit.calls.get(k_, 0) != v for k_, v in ref.items() if k_ != "var"):
+                    bad("step/call-count/partial", f"{explicit.label} received calls {dict(explicit.calls)}, expected {ref} with one "
+                        f"`var` less: part of the step was computed elsewhere (current engine is {current!r})")
+                msg = value_types_ok(built, kind_of_engine(explicit))
+                if msg:
+                    bad("step/value-type", msg)
+                if engines.get_current_engine() is not current or sym_metanet.engine is not current:
+                    bad("step/selection-changed", f"current engine is now {engines.get_current_engine()!r}")
+                    current = engines.get_current_engine()
+                built = build(spec)
             elif k == "stepfail":
                 explicit = spies[op[1]] if op[1] else None
                 bad_P = {k_: v for k_, v in P.items() if k_ != "T"}
